@@ -67,6 +67,13 @@ Theorem C02_uniq_invariant :
 Proof. exact reach_uniq. Qed.
 Print Assumptions C02_uniq_invariant.
 
+(* ... and every active state of every reachable configuration is a registered state: the
+   model's state names only registered states after every event of every history *)
+Theorem C02_registered :
+  forall (hm : hmachine) (f f' : forest), wf_defs hm = true -> reach hm f f' -> reg hm f -> reg hm f'.
+Proof. exact reach_reg. Qed.
+Print Assumptions C02_registered.
+
 (* non-vacuity: a transition between two regions' states in a parallel state *)
 Example C02_example :
   let d := SDef 5 [] [] [] false None [] [] [] in
